@@ -15,6 +15,7 @@ import struct
 from fractions import Fraction as Fr
 
 _S = {}
+SYNC_SERVER_LATENCY = 0.25
 EPOCH = 1700000000.625      # deliberately not a whole second (exact in binary64)
 
 
@@ -102,14 +103,54 @@ def do_send(S, who, k, kind, val, t0, log, obj=None):
                             server.addr.send_msg(*m)
             finally:
                 server.latency = old
+        elif kind == 'clump':
+            # an oversize bundle: `send_clumped_bundles` splits it into several datagrams
+            lat, count, msg = v
+            S['addr'].send_clumped_bundles(lat, *[list(msg) for _ in range(count)])
+        elif kind == 'sync':
+            # sync(latency, elements) directly on the NetAddr, or through the bundling proxy of bind();
+            # its wait for '/synced' is stepped over (nobody answers here); routines only
+            via, lat, elements = v
+            if via == 'addr':
+                for _ in S['addr'].sync(None, lat, elements):
+                    pass                      # ('hang': the routine would wait for '/synced' here)
+            else:
+                from sc3.synth import server as srv
+                server = srv.Server.default
+                old = server.latency
+                server.latency = SYNC_SERVER_LATENCY
+                try:
+                    with server.bind():
+                        server.addr.send_msg('/pre', 1)
+                        for _ in server.addr.sync(latency=lat, elements=elements):
+                            pass
+                finally:
+                    server.latency = old
         elif kind in ('b', 'B'):
             S['addr'].send_bundle(v[0], *v[1:])
         else:
             S['addr'].send_msg(*v)
-        rec['out'] = cap[n].hex() if len(cap) > n else 'sent'
+        rec['out'] = ','.join(d.hex() for d in cap[n:]) if len(cap) > n else 'sent'
     except Exception as e:
         rec['out'] = 'EXC:' + type(e).__name__
     log.append(rec)
+
+
+MULTI = ('bind', 'clump', 'sync')          # steps with several arguments
+RT_ONLY = ('clump', 'sync')                # not executed in the non-real-time run
+
+
+def do_step(S, who, k, st, t0, log, obj=None):
+    if st[0] in RT_ONLY and S.get('vt') is None:
+        return
+    do_send(S, who, k, st[0], st[1:] if st[0] in MULTI else st[1], t0, log, obj=obj)
+
+
+def seg(S, who, k, t0, log):
+    """a task (re)starts here: its logical time and the physical time (AppClock re-schedules from it)"""
+    main, vt = S['main'], S.get('vt')
+    log.append({'who': who, 'k': k, 'seg': True, 'secs': fr(Fr(main.current_tt._seconds) - Fr(t0)),
+                'now': fr(Fr(vt.now) - Fr(t0)) if vt is not None else None})
 
 
 def make_routine(S, rid, steps, t0, log, fn=False):
@@ -118,6 +159,7 @@ def make_routine(S, rid, steps, t0, log, fn=False):
         st = {'k': 0, 'shared': None}
 
         def f():
+            seg(S, rid, st['k'], t0, log)
             while st['k'] < len(steps):
                 k = st['k']
                 s_ = steps[k]
@@ -128,27 +170,25 @@ def make_routine(S, rid, steps, t0, log, fn=False):
                     if s_[1] is not None:
                         st['shared'] = pv(s_[1])
                     do_send(S, rid, k, 'B', s_[1], t0, log, obj=st['shared'])
-                elif s_[0] == 'bind':
-                    do_send(S, rid, k, 'bind', s_[1:], t0, log)
                 else:
-                    do_send(S, rid, k, s_[0], s_[1], t0, log)
+                    do_step(S, rid, k, s_, t0, log)
             return None
         f.__qualname__ = f'function{rid}'
         return f
 
     def gen():
         shared = None
+        seg(S, rid, 0, t0, log)
         for k, st in enumerate(steps):
             if st[0] == 'w':
                 yield num(st[1])
+                seg(S, rid, k + 1, t0, log)
             elif st[0] == 'B':             # the SAME Python object is sent again later
                 if st[1] is not None:
                     shared = pv(st[1])
                 do_send(S, rid, k, 'B', st[1], t0, log, obj=shared)
-            elif st[0] == 'bind':
-                do_send(S, rid, k, 'bind', st[1:], t0, log)
             else:
-                do_send(S, rid, k, st[0], st[1], t0, log)
+                do_step(S, rid, k, st, t0, log)
     gen.__qualname__ = f'routine{rid}'
     return S['stm'].Routine(gen)
 
@@ -162,6 +202,7 @@ def run_rt_case(c):
         if t._thread is not None and t._thread.is_alive():
             t._stop()
     clk.SystemClock.clear()
+    clk.AppClock.clear()
     vt.settle()
     vt.clear_log()
     del S['cap'][:]
@@ -171,9 +212,11 @@ def run_rt_case(c):
     tempo = clk.TempoClock(num(c['tempo']))
     vt.settle()
     for k, st in enumerate(c['main']):
-        do_send(S, 'main', k, st[0], st[1:] if st[0] == 'bind' else st[1], t0, log)
+        do_step(S, 'main', k, st, t0, log)
+    # a far task keeps the AppClock queue non-empty: an awakened task must see ITS time, not the head's
+    clk.AppClock.sched(48.0, lambda: None)
     for rid, r in enumerate(c['routines']):
-        clock = clk.SystemClock if r['clock'] == 's' else tempo
+        clock = {'s': clk.SystemClock, 'a': clk.AppClock}.get(r['clock'], tempo)
         clock.sched(num(r['start']), make_routine(S, rid, r['steps'], t0, log, r.get('fn', False)))
     vt.run_until(t0 + 64.0, late=num(c['late']))
     assert vt.now < 4096, 'virtual time too large for exact 2^-40 s arithmetic'
@@ -185,9 +228,11 @@ def run_rt_case(c):
         got.append(fr(Fr(time) - Fr(t0)))
     main.add_osc_recv_func(recv)
     recv_times = []
+    segs = [r for r in log if 'seg' in r]
+    log = [r for r in log if 'seg' not in r]
     for rec in log:
-        out = rec['out']
-        if out.startswith('EXC') or out == 'sent':
+        out = rec.get('out', 'sent')
+        if out.startswith('EXC') or out == 'sent' or ',' in out:
             recv_times.append(None)
             continue
         del got[:]
@@ -196,7 +241,7 @@ def run_rt_case(c):
         recv_times.append(list(got))
     main.remove_osc_recv_func(recv)
     tempo._stop()
-    return {'t0': fr(t0), 'offset': S['offset'], 'sends': log, 'recv': recv_times,
+    return {'t0': fr(t0), 'offset': S['offset'], 'sends': log, 'segs': segs, 'recv': recv_times,
             'recv_at': fr(Fr(vt.now) - Fr(t0)), 'died': [list(map(str, d)) for d in died]}
 
 
@@ -224,9 +269,9 @@ def run_nrt_case(c):
     log = []
     tempo = clk.TempoClock(num(c['tempo']))
     for k, st in enumerate(c['main']):
-        do_send(S, 'main', k, st[0], st[1:] if st[0] == 'bind' else st[1], 0.0, log)
+        do_step(S, 'main', k, st, 0.0, log)
     for rid, r in enumerate(c['routines']):
-        clock = clk.SystemClock if r['clock'] == 's' else tempo
+        clock = {'s': clk.SystemClock, 'a': clk.AppClock}.get(r['clock'], tempo)
         clock.sched(num(r['start']), make_routine(S, rid, r['steps'], 0.0, log, r.get('fn', False)))
     try:
         score = main.process(num(c['tail']))
@@ -234,7 +279,7 @@ def run_nrt_case(c):
                'end': fr(main.main_tt._m_seconds), 'duration': fr(score.duration)}
     except Exception as e:
         res = {'exc': type(e).__name__ + ':' + str(e)[:200]}
-    res['sends'] = log
+    res['sends'] = [r for r in log if 'seg' not in r]
     main.reset()
     return res
 
